@@ -40,7 +40,7 @@ theorem syncCreateTask_named (s : Sys) (jo : JobObj) (rj : Job) (tasks : List Ta
       | some p =>
         rw [hf] at h
         simp only [hown p hf, if_true] at h
-        cases ht : podTask p with
+        cases ht : podTask s.clock p with
         | none => rw [ht] at h; simp at h
         | some t =>
           rw [ht] at h
@@ -49,7 +49,7 @@ theorem syncCreateTask_named (s : Sys) (jo : JobObj) (rj : Job) (tasks : List Ta
   · rcases hres with hr | hr
     · rw [hr] at h
       simp only [createOut] at h
-      cases ht : podTask (newPod jo idx retry (nowT s)) with
+      cases ht : podTask s.clock (newPod jo idx retry (nowT s)) with
       | none => rw [ht] at h; simp at h
       | some t =>
         rw [ht] at h
